@@ -73,7 +73,8 @@ class SimKNXDevice:
             seq = (t0 >> 2) & 0xF
             st = self.conn.get(src)
             if st is None:
-                self.bus.emit(self, src, bytes((T_DISCONNECT,)))
+                if not self.base_script.get("closed_silent"):   # some stacks ignore data frames while no connection is open
+                    self.bus.emit(self, src, bytes((T_DISCONNECT,)))
                 return
             apdu = bytes((t0 & 0x03,)) + tpdu[1:]
             if seq == st["rx"]:
@@ -200,6 +201,8 @@ class SimBus:
         self.devices: list[SimKNXDevice] = []
         self.from_xknx: list[dict[str, Any]] = []
         self.lat_of = None      # optional fn(device) -> latency
+        self.glue = None        # optional fn(parsed frame) -> bool: the devices' answers arrive in the confirmation's callback
+        self._collect: list[tuple[bytes, str]] | None = None
         stub.on_send = self._from_xknx
 
     def add(self, **kw) -> SimKNXDevice:
@@ -214,11 +217,24 @@ class SimBus:
         c["t"] = self.loop.time()
         c["n"] = self.R.record("bus_out", "xknx", raw.hex())
         self.from_xknx.append(c)
+        if self.glue is not None and rec.get("b", {}).get("con", "after") == "after" and self.glue(c):
+            # the devices hear the frame at once and whatever they answer reaches xknx in the same receive callback as the
+            # frame's L_Data.con
+            self._collect = []
+            try:
+                for d in list(self.devices):
+                    d.on_frame(c)
+            finally:
+                rec["glued"], self._collect = self._collect, None
+            return
         # every device hears the frame after the bus latency
         self.loop.after(self.lat, lambda: [d.on_frame(c) for d in list(self.devices)], label="bus")
 
     def emit(self, dev: SimKNXDevice, dst: int, tpdu: bytes, *, group: bool = False, lat: float | None = None):
         raw = tl_frame(dev.ia, dst, tpdu, group=group)
+        if self._collect is not None:
+            self._collect.append((raw, f"dev{dev.ia:04x}"))
+            return
         if lat is None:
             lat = self.lat_of(dev) if self.lat_of else self.lat
         self.loop.after(lat, lambda: self.stub.deliver(raw, f"dev{dev.ia:04x}"), label="bus_in")
